@@ -17,7 +17,9 @@
 package main
 
 import (
+	"fmt"
 	"io"
+	"os"
 	"io/ioutil"
 	"net"
 	"net/url"
@@ -179,6 +181,9 @@ func implRT(l hv.L) hv.Val {
 	rterr, status, bodyerr := 0, 0, 0
 	var rbody []byte
 	if err != nil {
+		if os.Getenv("VERIF_DEBUG") != "" {
+			fmt.Fprintln(os.Stderr, "roundtrip error:", err)
+		}
 		switch err.(type) {
 		case bfe_fcgi.ConnectError:
 			rterr = 1
@@ -325,7 +330,193 @@ func genResp(r *hv.Rng) (string, []byte) {
 	return class, out
 }
 
+func pick(r *hv.Rng, xs ...string) string { return xs[r.Intn(len(xs))] }
+
+func tokenName(r *hv.Rng) string {
+	n := 1 + r.Intn(8)
+	b := make([]byte, n)
+	for i := range b {
+		b[i] = "abcxyzABCXYZ019-_.!~"[r.Intn(20)]
+	}
+	return string(b)
+}
+
+func textVal(r *hv.Rng) string {
+	n := r.Intn(12)
+	b := make([]byte, n)
+	for i := range b {
+		b[i] = "abcdefXYZ 0123,;=/:.-_"[r.Intn(22)]
+	}
+	return string(b)
+}
+
+// a reply of the modelled sub-language: header block on STDOUT, then body; STDERR only after the header block
+func genReply(r *hv.Rng) (string, []byte) {
+	class := "reply"
+	hdr := ""
+	switch r.Intn(8) {
+	case 0:
+	case 1:
+		hdr += "Status: 404 Not Found\r\n"
+	case 2:
+		hdr += "status: " + pick(r, "200", "302 Found", "500", "99", "1000", "007 x") + "\r\n"
+	case 3:
+		hdr += "Status: " + pick(r, "abc", "2x0 OK", "OK 200") + "\r\n"
+		class += "-badstatus"
+	case 4:
+		hdr += "X-Pre: 1\r\nStatus:" + pick(r, "201 Created", "  204  ", "") + "\r\n"
+	default:
+		hdr += "Status: " + itoa(r.Range(100, 599)) + " " + textVal(r) + "\r\n"
+	}
+	for k := r.Intn(3); k > 0; k-- {
+		hdr += pick(r, "Content-Type", "X-Powered-By", "Set-Cookie", "Content-Length", tokenName(r)+"h") + ": " + strings.TrimSpace(textVal(r)) + "\r\n"
+	}
+	body := r.Bytes(r.Intn(40))
+	if r.Chance(1, 3) {
+		body = []byte("hello\r\n\r\nworld")
+	}
+	var out []byte
+	emit := func(typ byte, c []byte) {
+		pad := 0
+		if r.Bool() {
+			pad = (8 - len(c)%8) % 8
+		} else if r.Chance(1, 6) {
+			pad = r.Intn(256)
+		}
+		out = append(out, rec(typ, 1, c, pad)...)
+	}
+	pieces := func(b []byte) [][]byte {
+		var ps [][]byte
+		for len(b) > 0 {
+			n := 1 + r.Intn(len(b))
+			ps = append(ps, b[:n])
+			b = b[n:]
+		}
+		return ps
+	}
+	empty := false
+	if r.Chance(1, 12) { // nothing at all on STDOUT
+		class += "-empty"
+		hdr, body = "", nil
+		empty = true
+	} else {
+		hdr += "\r\n"
+	}
+	for _, p := range pieces([]byte(hdr)) {
+		emit(6, p)
+	}
+	for _, p := range pieces(body) {
+		if r.Chance(1, 8) {
+			emit(7, []byte("PHP Warning: x"))
+			class += "-stderr"
+		}
+		emit(6, p)
+	}
+	e := r.Intn(8)
+	if empty && (e == 1 || e == 2) {
+		e = 0
+	}
+	switch e {
+	case 0:
+		class += "-noend"
+	case 1:
+		out = append(out, 2, 6, 0, 1, 0, 0, 0, 0)
+		class += "-badver"
+	case 2:
+		out = append(out, 1, 6, 0, 1, 0, 9, 0, 0, 'x') // truncated record
+		class += "-trunc"
+	default:
+		emit(6, nil)
+		if r.Chance(1, 6) {
+			emit(7, nil)
+		}
+		out = append(out, rec(3, 1, []byte{0, 0, 0, 0, 0, 0, 0, 0}, 0)...)
+	}
+	return class, out
+}
+
+func itoa(n int) string {
+	if n == 0 {
+		return "0"
+	}
+	neg := n < 0
+	if neg {
+		n = -n
+	}
+	s := ""
+	for n > 0 {
+		s = string(rune('0'+n%10)) + s
+		n /= 10
+	}
+	if neg {
+		s = "-" + s
+	}
+	return s
+}
+
+func genRT(r *hv.Rng) (string, hv.Val) {
+	method := pick(r, "GET", "POST", "HEAD", "PUT", "OPTIONS", "")
+	scheme := pick(r, "http", "https", "")
+	host := pick(r, "example.org", "example.org:8080", "[::1]:8080", "[2001:db8::1]", "a:b:c", ":80", "host:", "", "10.1.2.3:443", "[::1]x:1", "a]b:1")
+	remote := pick(r, "10.0.0.1:5555", "[2001:db8::2]:443", "192.168.1.9:1", "nohostport", "[::1]:80", "1.2.3.4:", ":9", "[a]:b]:7")
+	path := pick(r, "/", "/index.php", "/a/b.php", "/a/../b.php", "/a//b/./c.php", "", "/x/", "/../../etc/passwd", "/a/b/../../..", "/./.")
+	query := pick(r, "", "a=1&b=2", "x=1", "q")
+	proto := pick(r, "HTTP/1.1", "HTTP/1.0", "HTTP/2.0", "")
+	root := pick(r, "/var/www", "/var/www/", "", "www/../htdocs", "/", "../up", ".", "a/./b//")
+	body := r.Bytes(r.Intn(50))
+	clen := len(body)
+	switch r.Intn(6) {
+	case 0:
+		clen = -1
+	case 1:
+		clen = 0
+	case 2:
+		clen = r.Intn(100000)
+	}
+	seen := map[string]bool{}
+	var hs hv.L
+	nh := r.Intn(5)
+	for j := 0; j < nh; j++ {
+		k := pick(r, "User-Agent", "Accept", "X-Forwarded-For", "Content-Type", "Content-Length", "Cookie", "x-lower", "X_Under", "Host", "X-A", tokenName(r), tokenName(r))
+		m := strings.Replace(strings.ToUpper(k), "-", "_", -1)
+		if seen[m] {
+			continue
+		}
+		seen[m] = true
+		var vs hv.L
+		for c := 1 + r.Intn(3); c > 0; c-- {
+			vs = append(vs, hv.S(textVal(r)))
+			if r.Chance(2, 3) {
+				break
+			}
+		}
+		hs = append(hs, hv.L{hv.S(k), vs})
+	}
+	if hs == nil {
+		hs = hv.L{}
+	}
+	seenE := map[string]bool{}
+	var es hv.L
+	for j := r.Intn(4); j > 0; j-- {
+		k := pick(r, "MY_ENV", "Script_Name", "REQUEST_METHOD", "HTTP_X_A", "content_type", "PATH_INFO", "my-var", "HTTP_HOST", tokenName(r))
+		if seenE[strings.ToUpper(k)] {
+			continue
+		}
+		seenE[strings.ToUpper(k)] = true
+		es = append(es, hv.L{hv.S(k), hv.S(textVal(r))})
+	}
+	if es == nil {
+		es = hv.L{}
+	}
+	rc, resp := genReply(r)
+	return "rt/" + rc, hv.L{hv.I(2), hv.S(method), hv.S(scheme), hv.S(host), hv.S(remote), hv.S(path), hv.S(query), hv.S(proto),
+		hv.I(clen), hs, hv.S(root), es, hv.B(body), hv.B(resp)}
+}
+
 func gen(r *hv.Rng, i int, tier string) (string, hv.Val) {
+	if i%3 == 2 {
+		return genRT(r)
+	}
 	class := "req"
 	np := r.Intn(5)
 	huge := r.Chance(1, 400)
